@@ -315,3 +315,55 @@ func presence(b bool) lat {
 	}
 	return latNil
 }
+
+// c07XWingSeed: the X-Wing integration of HPKE derives the key pair from SHAKE256(ikm, 32) for every ikm: no
+// call of the wrapped scheme's DeriveKeyPair in genericNoAuthKEM.DeriveKeyPair is handed the caller's seed.
+func init() {
+	prev := registry["C07"]
+	registry["C07"] = func(c *Ctx) {
+		prev(c)
+		p := c.Prog("amd64")
+		if p == nil {
+			return
+		}
+		c.Clauses = append(c.Clauses, "C07.xwingseed: genericNoAuthKEM.DeriveKeyPair hands the wrapped scheme the SHAKE256 output, never the caller's input keying material itself")
+		f := p.Func("hpke", "genericNoAuthKEM", "DeriveKeyPair")
+		what := "(hpke.genericNoAuthKEM).DeriveKeyPair: the wrapped scheme derives from the hashed seed on every path"
+		if f == nil || len(f.Params) < 2 {
+			c.undecided("C07.xwingseed", what, "anchor does not resolve", "")
+			return
+		}
+		seed := f.Params[1]
+		n, reads := 0, 0
+		var bad []string
+		for _, b := range f.Blocks {
+			for _, in := range b.Instrs {
+				ci, ok := in.(ssa.CallInstruction)
+				if !ok {
+					continue
+				}
+				name := p.staticCalleeName(ci.Common())
+				if strings.HasSuffix(name, ".Read") && strings.Contains(name, "sha3") {
+					reads++
+				}
+				if !strings.HasSuffix(name, ").DeriveKeyPair") {
+					continue
+				}
+				n++
+				for _, a := range ci.Common().Args {
+					if base, _ := memRoot(a); base == ssa.Value(seed) {
+						bad = append(bad, p.pos(ci.Pos()))
+					}
+				}
+			}
+		}
+		switch {
+		case n == 0 || reads == 0:
+			c.undecided("C07.xwingseed", what, fmt.Sprintf("%d calls of DeriveKeyPair, %d squeezes of the sponge", n, reads), p.fnPos(f))
+		case len(bad) > 0:
+			c.bad("C07.xwingseed", what, "the caller's seed itself is handed to the wrapped scheme at "+strings.Join(bad, ", ")+": for that input the key pair is not the one derived from SHAKE256(ikm)", p.fnPos(f))
+		default:
+			c.ok("C07.xwingseed", what, fmt.Sprintf("%d call(s), none takes the parameter", n), p.fnPos(f))
+		}
+	}
+}
